@@ -113,7 +113,9 @@ def check_case(case):
     if not cands:
         raise Skip("no-block")
     # mostly the exact position of the former call, sometimes a neighbour
-    exact = [s for s in cands if s.path == site.path]
+    if "start" in case:
+        cands = [cands[case["start"] % len(cands)]]
+    exact = [s for s in cands if s.path == site.path] if "start" not in case else cands
     start = exact[0] if exact and case["blk"] % 4 != 3 else cands[(case["blk"] // 4 + case["blk"]) % len(cands)]
     blen = [nbody, nbody, 1, 2, nbody + 1, 3][case["blen"] % 6]
     blen = max(1, min(blen, start.nsib - start.pos))
@@ -221,10 +223,10 @@ def run(ctx):
                     continue
                 for call in range(2):
                     for mode in (0, 2):
-                        for blk in range(8):
-                            for blen in range(6):
+                        for start in range(6):
+                            for blen in (0, 2, 3, 4):
                                 for k1, k2 in ((0, 0), (1, 1), (2, 3), (3, 2)) if mode == 2 else ((0, 0),):
-                                    yield {"prog": prog, "call": call, "prep": [], "mode": mode, "k1": k1, "k2": k2, "blk": blk, "blen": blen, "val": val}
+                                    yield {"prog": prog, "call": call, "prep": [], "mode": mode, "k1": k1, "k2": k2, "blk": 0, "start": start, "blen": blen, "val": val}
 
     run_systematic(ctx, sys_cases(), guarded(ctx, check_case), keep_one_in=2 if ctx.tier == "quick" else 1, label="template-blocks")
     run_cases(ctx, case_strategy(), guarded(ctx, check_case), ctx.budget(3000, 100000))
